@@ -68,6 +68,8 @@ where
         x: <Sx>::Elem,
         y: <Sy>::Elem,
     ) -> Result<(), crate::InterpolateError> {
+        #[cfg(ndarray_interp_verif)]
+        crate::verif_hooks::sched_point("bilinear:enter");
         if !self.extrapolate && !interpolator.is_in_x_range(x) {
             return Err(InterpolateError::OutOfBounds(format!(
                 "x = {x:?} is not in range"
@@ -80,6 +82,8 @@ where
         }
 
         let (x_idx, y_idx) = interpolator.get_index_left_of(x, y);
+        #[cfg(ndarray_interp_verif)]
+        crate::verif_hooks::sched_point("bilinear:after_lookup");
         let (x1, y1, z11) = interpolator.index_point(x_idx, y_idx);
         let (_, _, z12) = interpolator.index_point(x_idx, y_idx + 1);
         let (_, _, z21) = interpolator.index_point(x_idx + 1, y_idx);
@@ -95,6 +99,8 @@ where
                 let z2 = Linear::calc_frac((x1, z12), (x2, z22), x);
                 *z = Linear::calc_frac((y1, z1), (y2, z2), y)
             });
+        #[cfg(ndarray_interp_verif)]
+        crate::verif_hooks::sched_point("bilinear:exit");
         Ok(())
     }
 }
